@@ -463,6 +463,12 @@ class Engine:
                         callee = re.sub(r'^(move|copy) ', '', callee)
                         argv = [operand(p, a) for a in split_top(argstr)] if argstr.strip() else []
                         dst_pl = parse_place(dst)
+                        if getattr(self, 'cut_at', None) and re.search(self.cut_at, callee):
+                            # prefix analysis: the path is cut here (everything after this call is outside the query)
+                            p.outcome = ('cut', callee)
+                            self.done.append(p)
+                            ended = True
+                            break
                         handled = False
                         for pat, sfn in self.summaries:
                             if re.search(pat, callee):
